@@ -28,10 +28,12 @@ RULE = ("random spec-level alignment records (0..4 references, refID -1, read na
         "alignment_to_interval / {whole, every mask of five, permutations and repetitions of equal-sized records, chunk-stream} write "
         "back / read a field, write the selection, read all fields again / selection programs (selections of selections, writes between "
         "selections, reads after writes) / trees of tables (the parent read or written after a slice / mask / index child was written) / "
-        "max_chunk_size / eager reading (lazy=False) / count_entries / write of a chunk with replaced values (must be refused). Non-trivial = >= 2 records with "
+        "max_chunk_size / eager reading (lazy=False) / count_entries / write of a chunk with replaced values (must be refused) / writer sessions (several calls on one open "
+        "writer: valid, refused and empty ones in any order; the file decodes to the records of the successful calls) / selections of "
+        "300..2100 records with index arrays in file order with repeats, tiled, permuted, reversed. Non-trivial = >= 2 records with "
         "different name-length / CIGAR-count / sequence-parity shapes")
 EXHAUSTIVE = {"quick": False, "thorough": False}
-MODEL_OPS = {"decode", "chunked", "interval", "write", "count", "program", "tree"}
+MODEL_OPS = {"decode", "chunked", "interval", "write", "count", "program", "tree", "session"}
 PARALLEL = 16
 ASSUMPTIONS = ["gzip.open(...).read(n) returns min(n, remaining) bytes of the concatenated members (BGZF = gzip members)",
                "NumPy fancy indexing / .view(dtype) / ragged_slice are modelled as list slices and little-endian sums",
@@ -285,6 +287,48 @@ def impl(c):
                 return obs
             except Exception as e:
                 return _err(e)
+        if op == "session":
+            # ONE open writer, several write calls — valid ones (whole / selections / empty tables / a chunk stream) and calls the
+            # writer documents it REFUSES (entries with replaced values -> ValueError, raised after the header has gone out):
+            # the file decodes to the records of the calls that succeeded, in order (a failed call leaves no state behind)
+            out = _path("out")
+            try:
+                d = bnp.open(p).read()
+                outcome = []
+                with bnp.open(out, "w") as f:
+                    for st in c["steps"]:
+                        try:
+                            if st[0] == "whole":
+                                f.write(d)
+                            elif st[0] == "empty":
+                                f.write(d[0:0])
+                            elif st[0] == "stream":
+                                f.write(bnp.open(p).read_chunks(min_chunk_size=st[1]))
+                            elif st[0] == "sel":
+                                f.write(_select(d, st[1], st[2]))
+                            else:
+                                t = d if st[2] is None else _select(d, "index", st[2])
+                                f.write(bnp.replace(t, **{st[1]: np.asarray(getattr(t, st[1])) + 1}))
+                            outcome.append("ok")
+                        except Exception as e:
+                            outcome.append("raised:" + type(e).__name__)
+                rawz = open(out, "rb").read()
+                try:
+                    text, refs, recs, hdr_end = decode_file_bytes(gzip.decompress(rawz))
+                    dec = [_full(r) for r in recs]
+                except Exception as e:
+                    dec = "undecodable:" + type(e).__name__
+                try:
+                    lib = _rows(bnp.open(out).read())
+                except Exception as e:
+                    lib = "unreadable:" + type(e).__name__
+                try:
+                    fh = bhash(gzip.decompress(rawz))
+                except Exception:
+                    fh = None
+                return {"steps": outcome, "recs": dec, "lib": lib, "eof": rawz.endswith(EOF_BLOCK), "file": fh}
+            except Exception as e:
+                return _err(e)
         if op == "write_then_read":
             out = _path("out")
             try:
@@ -375,6 +419,34 @@ def impl(c):
                 os.remove(q)
 
 
+def _select(d, kind, idx):
+    if kind == "mask":
+        m = np.zeros(len(d), dtype=bool)
+        m[idx] = True
+        return d[m]
+    if kind == "slice":
+        return d[slice(*idx)]
+    return d[np.array(idx, dtype=int)]
+
+
+def _session_parts(c):
+    """per step of a writer session: (records a successful call adds, is the step one the writer may refuse)"""
+    recs = c["recs"]
+    out = []
+    for st in c["steps"]:
+        if st[0] in ("whole", "stream"):
+            out.append((list(recs), False))
+        elif st[0] == "empty":
+            out.append(([], False))
+        elif st[0] == "sel":
+            out.append(([recs[i] for i in st[2]] if st[1] != "slice" else recs[slice(*st[2])], False))
+        else:
+            key = {"position": "pos", "mapq": "mapq", "flag": "flag"}[st[1]]
+            sel = list(recs) if st[2] is None else [recs[i] for i in st[2]]
+            out.append(([dict(r, **{key: r[key] + 1}) for r in sel], True))
+    return out
+
+
 def _full(r):
     return {k: r[k] for k in ("ref", "pos", "mapq", "flag", "nref", "npos", "tlen", "name", "cigar", "seq", "qual", "tags")}
 
@@ -419,6 +491,9 @@ def oracle(c):
             else:
                 obs.append({"r": [view(refs, r) for r in cur]})
         return obs
+    if op == "session":
+        return {"parts": [{"recs": [_full(dict(r, cigar=[list(x) for x in r["cigar"]])) for r in part], "rows": [view(refs, r) for r in part],
+                           "may_refuse": mr} for part, mr in _session_parts(c)]}
     if op == "write_then_read":
         idx = c["idx"] if c["sel"] != "slice" else (list(range(c["idx"][0], c["idx"][-1] + 1)) if c["idx"] else [])
         sel = [recs[i] for i in idx]
@@ -456,6 +531,19 @@ def agree(c, got, exp):
         if not isinstance(got, list) or len(got) != len(exp):
             return False
         return all(core.canon(g.get("recs")) == core.canon(e["recs"]) if "w" in e else core.canon(g) == core.canon(e) for g, e in zip(got, exp))
+    if c["op"] == "session":
+        # every call that must succeed succeeded; a call the writer may refuse either raised or wrote the NEW values; the file
+        # decodes (by the spec-level decoder and by the library) to the records of the successful calls, in order
+        if len(got.get("steps", [])) != len(exp["parts"]) or got.get("eof") is not True:
+            return False
+        recs, rows = [], []
+        for o, part in zip(got["steps"], exp["parts"]):
+            if o == "ok":
+                recs += part["recs"]
+                rows += part["rows"]
+            elif not part["may_refuse"]:
+                return False
+        return core.canon(got.get("recs")) == core.canon(recs) and core.canon(got.get("lib")) == core.canon(rows)
     if c["op"] == "write_modified":
         # a BAM chunk with replaced values must be written with the new values or refused; never silently as it was read
         return "refused" in got or core.canon(got.get("recs")) == core.canon(exp["refused_or"])
@@ -476,6 +564,13 @@ def agree_spec(c, s, exp):
 def agree_model(c, got, m):
     if c["op"] in ("program", "tree"):
         return isinstance(got, list) and core.canon([{"w": g["w"]} if "w" in g else g for g in got]) == core.canon(m)
+    if c["op"] == "session":
+        # the model is the writer as shipped: replaced values are refused. (Were they accepted one day, the bytes are the oracle's business.)
+        if not isinstance(got, dict) or "steps" not in got:
+            return False
+        if any(o == "ok" and st[0] == "mod" for o, st in zip(got["steps"], c["steps"])):
+            return True
+        return got.get("file") == m.get("file")
     if c["op"] == "write" and isinstance(got, dict) and "body" in got:
         return all(core.canon(got[k]) == core.canon(m.get(k)) for k in ("body", "file", "eof"))
     return core.canon(got) == core.canon(m)
@@ -513,6 +608,18 @@ def model_request(c):
     if c["op"] == "write":
         q["idx"] = _sel(c)
         q["mode"] = c["mode"]
+    if c["op"] == "session":
+        n, steps = len(c["recs"]), []
+        for st in c["steps"]:
+            if st[0] in ("whole", "stream"):
+                steps.append(["ok", list(range(n))])
+            elif st[0] == "empty":
+                steps.append(["ok", []])
+            elif st[0] == "sel":
+                steps.append(["ok", list(range(n))[slice(*st[2])] if st[1] == "slice" else list(st[2])])
+            else:
+                steps.append(["refused"])
+        q["steps"] = steps
     if c["op"] == "tree":
         lens, steps = [len(c["recs"])], []
         for st in c["steps"]:
@@ -861,6 +968,72 @@ def cases(tier, rng):
     for _ in range(120 * f):
         c = rand_file(rng, nrec=rng.choice([3, 4, 6, 8]))
         yield dict(c, op="tree", steps=rand_tree(len(c["recs"])))
+    # writer SESSIONS: several write calls on one open writer, among them calls the writer refuses (replaced values) and empty
+    # tables — before, between and after valid writes: state left behind by a failed / empty call must not reach the file
+    def rand_session(n, c):
+        steps = []
+        for _ in range(rng.choice([2, 2, 3, 4, 5])):
+            kind = rng.choice(["whole", "sel", "sel", "mod", "mod", "empty", "stream"])
+            if kind == "sel":
+                how = rng.choice(["mask", "index", "slice"])
+                if how == "mask":
+                    steps.append(["sel", "mask", sorted(rng.sample(range(n), rng.randrange(0, n + 1)))])
+                elif how == "index":
+                    steps.append(["sel", "index", [rng.randrange(n) for _ in range(rng.choice([1, n, n + 1]))]])
+                else:
+                    steps.append(["sel", "slice", rng.choice([[1, None, None], [None, -1, None], [None, None, 2], [None, None, -1], [0, 0, None]])])
+            elif kind == "mod":
+                steps.append(["mod", rng.choice(["position", "mapq", "flag"]), rng.choice([None, None, [rng.randrange(n) for _ in range(rng.choice([1, n]))]])])
+            elif kind == "stream":
+                steps.append(["stream", rng.choice(_ks(rng, c, every=False))])
+            else:
+                steps.append([kind])
+        if rng.random() < 0.5:      # a refused call FIRST (the header goes out with it), or between two valid ones
+            steps.insert(rng.choice([0, 0, 1]), ["mod", rng.choice(["position", "mapq", "flag"]), None])
+        if steps[-1][0] in ("mod", "empty"):
+            steps.append(rng.choice([["whole"], ["sel", "index", [n - 1, 0]]]))
+        return steps
+    fixed_sessions = [[["mod", "position", None], ["whole"]], [["whole"], ["mod", "flag", None], ["whole"]], [["empty"], ["mod", "mapq", None], ["sel", "mask", [0, 2]]],
+                      [["mod", "position", [1, 0]], ["mod", "position", None], ["sel", "index", [3, 3, 1]], ["empty"], ["whole"]],
+                      [["empty"], ["empty"], ["whole"]], [["mod", "flag", None]], [["sel", "slice", [None, None, -1]], ["mod", "mapq", None], ["empty"]]]
+    for recs_ in (eq, uneq):
+        for steps in fixed_sessions:
+            yield {"op": "session", "refs": two, "text": [], "recs": recs_[:4], "blk": 4096, "eof": True, "steps": steps}
+    for _ in range(60 * f):
+        c = rand_file(rng, nrec=rng.choice([1, 2, 3, 5]))
+        for r in c["recs"]:
+            r["pos"], r["mapq"], r["flag"] = min(r["pos"], 10 ** 6), min(r["mapq"], 200), min(r["flag"], 60000)
+        yield dict(c, op="session", steps=rand_session(len(c["recs"]), c))
+    # selections of HUNDREDS to a few thousand records (between the handful above and whole real files): index arrays as users
+    # get them from np.repeat / np.searchsorted / sorted sampling with replacement (in file order WITH repeats), np.tile, strided and
+    # reversed slices, masks, permutations — written back (and read after the write)
+    def many(n):
+        return [dict(base, name="m%d" % i + "x" * (i % 3), pos=7 * i, flag=(16 if i % 2 else 0), mapq=i % 200, cigar=[["M", 1 + i % 4]] + ([["S", 1]] if i % 5 == 0 else []),
+                     seq="ACGT"[:1 + i % 4], qual=[i % 90] * (1 + i % 4), tags=[]) for i in range(n)]
+    for how in ["repeat", "searchsorted", "sample_sorted", "tile", "every_other_twice", "perm", "reverse"] * (3 if big else 1):
+        n = rng.choice([300, 520, 700, 1100, 2100])
+        if how == "repeat":
+            idx = [i for i in range(0, n, rng.choice([1, 2, 3])) for _ in range(rng.choice([1, 2, 2, 3]))]
+        elif how == "searchsorted":
+            q = sorted(rng.randrange(0, 7 * n) for _ in range(rng.choice([n, n + n // 2])))
+            idx = [min(n - 1, x // 7) for x in q]
+        elif how == "sample_sorted":
+            idx = sorted(rng.randrange(n) for _ in range(rng.choice([n // 2 + 300, n])))
+        elif how == "tile":
+            idx = list(range(0, n, 2)) * 2
+        elif how == "every_other_twice":
+            idx = [i for i in range(0, n, 2) for _ in (0, 1)]
+        elif how == "perm":
+            idx = rng.sample(range(n), n)
+        else:
+            idx = list(range(n - 1, -1, -1))
+        c = {"refs": two, "text": [], "recs": many(n), "blk": 65280, "eof": True}
+        if rng.random() < 0.5:
+            yield dict(c, op="write", mode="index", idx=idx)
+        else:
+            yield dict(c, op="write_then_read", sel="index", idx=idx, first=rng.choice(FIELDS))
+    for n in (520, 1030):
+        yield {"op": "write", "refs": two, "text": [], "recs": many(n), "blk": 65280, "eof": True, "mode": "mask", "idx": [i for i in range(n) if i % 3]}
     # eager reading (BamBuffer.get_data / BamIntervalBuffer.get_data), count_entries, writing a chunk with replaced values
     yield {"op": "count", "refs": two, "text": [], "recs": [base, unm, rv], "blk": 4096, "eof": True}
     for _ in range(40 * f):
